@@ -186,13 +186,20 @@ def run(ctx) -> None:
         l2 = [n for n in walk_no_nested(ifp.node) if isinstance(n, ast.For)]
     ctx.check("R3", in_ok, "iter_matches: inner loop over all lines for the pattern",
               "parse.iter_matches: inner enumeration does not cover all lines for the pattern", f"`{unparse(inner.iter)}`", loc=im.loc(inner))
-    ctx.require(len(l2) == 1, "parse._iter_for_pattern loop shape changed")
-    it_txt = unparse(l2[0].iter)
-    ctx.check("R3", it_txt in (f"enumerate({ifp.params[0]})",), f"{ifp.name}: loop over enumerate({ifp.params[0]}) (every line, zero based)",
-              f"parse.{ifp.name}: not every line is searched", f"`for ... in {it_txt}`", loc=ifp.loc(l2[0]))
+    folded_search = None if merged else line_search_fold(ctx, ifp)
+    if folded_search is not None:
+        ctx.check("R3", not folded_search, f"{ifp.name}: every line is searched once, as it is, and yields (zero-based line number, line, pattern, span, text) iff the match is not empty "
+                  "(24 orders of no match / empty / one character / longer match folded)",
+                  f"parse.{ifp.name}: not every line is searched / matches are dropped (or empty matches kept) by the per-line test",
+                  "; ".join(folded_search[:2]), loc=ifp.loc(), witness={"cases": folded_search[:3]})
+    else:
+        ctx.require(len(l2) == 1, "parse._iter_for_pattern loop shape changed")
+        it_txt = unparse(l2[0].iter)
+        ctx.check("R3", it_txt in (f"enumerate({ifp.params[0]})",), f"{ifp.name}: loop over enumerate({ifp.params[0]}) (every line, zero based)",
+                  f"parse.{ifp.name}: not every line is searched", f"`for ... in {it_txt}`", loc=ifp.loc(l2[0]))
     # helper form: a line yields a match iff the search found something non-empty (an empty match would splice the new
     # version in at a position that matched nothing; dropping one-character matches would leave them stale)
-    if not merged:
+    if not merged and folded_search is None:
         iys = [n for n in ast.walk(ifp.node) if isinstance(n, ast.Yield)]
         ctx.require(len(iys) == 1, "parse._iter_for_pattern yield count changed")
         icfg_ = cfgs.get(ifp.fq)
@@ -589,8 +596,15 @@ def default_calendar_rule(ctx, rule: str) -> None:
     g = guards[0] if guards else inline[0]
     test = g.test if guards else g.value.test
     gi = body.index(g)
+    # backward slice: the statements before the guard that bind a name the guard reads (flag loops included); the
+    # calendar locals themselves are supplied, so their parsing statements are not part of it
     need = {n.id for n in ast.walk(test) if isinstance(n, ast.Name)} - set(CAL_LOCALS)
-    pre = [st for st in body[:gi] if isinstance(st, ast.Assign) and len(st.targets) == 1 and isinstance(st.targets[0], ast.Name) and st.targets[0].id in need]
+    pre: T.List[ast.stmt] = []
+    for st in reversed(body[:gi]):
+        binds = {n.id for n in ast.walk(st) if isinstance(n, ast.Name) and isinstance(n.ctx, ast.Store)}
+        if isinstance(st, (ast.Assign, ast.AnnAssign, ast.AugAssign, ast.For, ast.If)) and binds & need and not (binds & set(CAL_LOCALS)):
+            pre.insert(0, st)
+            need |= {n.id for n in ast.walk(st) if isinstance(n, ast.Name) and isinstance(n.ctx, ast.Load)} - set(CAL_LOCALS)
     wrong: T.List[str] = []
     try:
         for k in [None] + list(CAL_LOCALS):
@@ -684,3 +698,97 @@ def section_scan_rule(ctx, rule: str) -> None:
     ctx.check(rule, exact and headers == want_h, "self-pattern parser: the section flag is set only by the exact headers [pycalver] / [bumpver] / [tool.bumpver]",
               "config._parse_current_version_default_pattern: section detection is not an exact header match (a foreign section's current_version line can be picked)",
               f"exact={exact}, headers={sorted(headers)}", loc=dp.loc(), witness={"section": "[tool.bumpversion]"})
+
+
+def line_search_fold(ctx, ifp) -> T.Optional[T.List[str]]:
+    """Decide parse._iter_for_pattern by evaluating its body with the folder on four abstract lines whose search results are
+    {no match, empty match, one-character match, longer match} in all 24 orders.  Expected: one PatternMatch(lineno, line,
+    pattern, span, text) per line with a non-empty match, in line order, lineno zero based, the line passed to `search`
+    unchanged.  Returns the deviations, or None if the body cannot be evaluated."""
+    import itertools
+    from sa.model import Abstract, CannotFold
+    prog = ctx.prog
+
+    class Match(Abstract):
+        def __init__(self, start: int, text: str):
+            self._s, self._t = start, text
+
+        def group(self, i: int = 0) -> str:
+            return self._t
+
+        def span(self, i: int = 0) -> T.Tuple[int, int]:
+            return (self._s, self._s + len(self._t))
+
+        def start(self, i: int = 0) -> int:
+            return self._s
+
+        def end(self, i: int = 0) -> int:
+            return self._s + len(self._t)
+
+        def __getitem__(self, i: int) -> str:
+            return self._t
+
+    class Line(Abstract):
+        """An opaque line: any str method or slice gives a different (edited) text."""
+        def __init__(self, name: str, edited: bool = False):
+            self.name, self.edited = name, edited
+
+        def __getattr__(self, attr: str) -> T.Any:
+            if attr.startswith("_"):
+                raise AttributeError(attr)
+            return lambda *a, **k: Line(f"{self.name}.{attr}(...)", True)
+
+        def __getitem__(self, i: T.Any) -> T.Any:
+            return Line(f"{self.name}[...]", True)
+
+        def __repr__(self) -> str:
+            return self.name
+
+    class Regexp(Abstract):
+        def __init__(self, table: T.Dict[T.Any, T.Any]):
+            self.table = table
+            self.asked: T.List[T.Any] = []
+
+        def search(self, line: T.Any, *a: T.Any) -> T.Any:
+            self.asked.append(line)
+            if not isinstance(line, Line) or line.edited:
+                return Match(0, "EDITED")
+            return self.table[line]
+
+    class Pat(Abstract):
+        def __init__(self, rx: Regexp):
+            self.regexp = rx
+            self.raw_pattern = "RAW"
+
+    fields = ["lineno", "line", "pattern", "span", "match"]
+
+    def ctor(f: T.Any, node: ast.Call) -> T.Any:
+        vals = dict(zip(fields, [f(a) for a in node.args]))
+        for k in node.keywords:
+            if k.arg is None:
+                raise CannotFold("PatternMatch(**...)")
+            vals[k.arg] = f(k.value)
+        return tuple(vals.get(k) for k in fields)
+    kinds = {"none": None, "empty": ("", 2), "one": ("7", 3), "long": ("1.2.3", 1)}
+    wrong: T.List[str] = []
+    if len(ifp.params) < 2:
+        return None
+    try:
+        for order in itertools.permutations(kinds):
+            lines = [Line(f"line{i}<{k}>") for i, k in enumerate(order)]
+            table = {ln: (None if kinds[k] is None else Match(kinds[k][1], kinds[k][0])) for ln, k in zip(lines, order)}
+            rx = Regexp(table)
+            pat = Pat(rx)
+            env: T.Dict[str, T.Any] = {ifp.params[0]: list(lines), ifp.params[1]: pat, "__stubs__": {"PatternMatch": ctor}}
+            ret, ys = prog.run_body(ifp, env)
+            if ret is not None and not ys:
+                ys = list(ret)
+            want = [(i, ln, pat, table[ln].span(), table[ln].group(0)) for i, ln in enumerate(lines) if table[ln] is not None and table[ln].group(0) != ""]
+            if list(ys) != want:
+                got_txt = [(y[0], y[4]) if isinstance(y, tuple) and len(y) == 5 else y for y in ys]
+                wrong.append(f"lines with {list(order)}: yields {got_txt}, expected {[(w[0], w[4]) for w in want]}")
+            elif len(rx.asked) != len(lines) or any(a_ is not l_ for a_, l_ in zip(rx.asked, lines)):
+                wrong.append(f"lines with {list(order)}: search called with {rx.asked!r} (each line must be searched once, unchanged)")
+    except (CannotFold, TypeError, AttributeError, KeyError, ValueError, IndexError):
+        return None
+    return wrong
